@@ -21,7 +21,7 @@ class Events:
 
         unprepared = ensure_iterable(events)
         for events in unprepared:
-            for event in events.split(" "):
+            for event in events.split():
                 if event in self._items:
                     continue
                 if isinstance(event, Event):
